@@ -14,7 +14,7 @@ Decided:
 """
 from ..flow import arg_origins, origins
 from ..mir import op_const, try_edges
-from ..util import POLL, polls, result_return_kinds, unreachable_without, where
+from ..util import POLL, effective_callers, effective_owner, polls, result_return_kinds, unreachable_without, where
 
 LEVEL = "other"
 TECHNIQUE = ("typestate over the OpenOptions builder (must-pass-through per open site), must-follow on write_all/flush success "
@@ -46,31 +46,7 @@ def check(ctx):
     prog = ctx.prog
     b = prog.async_body(WF)
     R1 = ctx.rule("R1", "every open() of a storage file is preceded on all paths by write(true) and truncate(true)|create_new(true) on the same builder, never append(true)")
-    from .storage_common import write_file_traces, index_of
-    traces = write_file_traces(prog)
-    ctx.floor(R1, "write_file success-path traces (file exists x file type)", len(traces), 6)
-    for (exists, ft), tr in sorted(traces.items()):
-        ev = tr["events"]
-        who = "%s file, %s" % (ft, "already exists" if exists else "new")
-        i_open = index_of(ev, lambda e: e[0] in ("oo.open", "create"))
-        if tr["kind"] != "return" or i_open < 0:
-            ctx.fail(R1, "%s:%s" % (b.file, b.line), "write_file's success path could not be evaluated or never opens the file (%s): %s" % (who, tr["kind"]), [WF, "trace", ft, str(exists)])
-            continue
-        if ev[i_open][0] == "create":
-            ctx.ok(R1, "%s: File::create (truncates)" % who)
-            continue
-        news = [i for i, e in enumerate(ev[:i_open]) if e[0] == "oo.new"]
-        flags = {e[0][3:]: e[1] for e in ev[(news[-1] if news else 0):i_open] if e[0].startswith("oo.")}
-        ctx.require(R1, flags.get("write") is True, "%s:%s" % (b.file, b.line), "%s: opened with write(true) (%s)" % (who, flags), [WF, "open-without-write", ft, str(exists)])
-        ctx.require(R1, flags.get("truncate") is True or flags.get("create_new") is True, "%s:%s" % (b.file, b.line),
-                    "%s: opened with truncate(true) or create_new(true) — older, longer content cannot survive (%s)" % (who, flags), [WF, "open-without-truncate", ft, str(exists)])
-        ctx.require(R1, flags.get("append") is not True, "%s:%s" % (b.file, b.line), "%s: never opened in append mode" % who, [WF, "append", ft, str(exists)])
-        ctx.require(R1, "PATH" in str(ev[i_open][1]), "%s:%s" % (b.file, b.line), "%s: the opened path is the storage path of get_file_full_path (%s)" % (who, ev[i_open][1]), [WF, "path", ft, str(exists)])
-        i_w = index_of(ev, lambda e: e[0] == "write_all", i_open)
-        ctx.require(R1, i_w > i_open and "DATA" in str(ev[i_w][1]), "%s:%s" % (b.file, b.line), "%s: the data parameter is written after the open" % who, [WF, "write-after-open", ft, str(exists)])
-    # no append(true) anywhere in the function (any path)
-    ap = true_arg_calls(b, OO + "::append") + true_arg_calls(b, STD_OO + "::append")
-    ctx.require(R1, not ap, ap[0].where() if ap else "%s:%s" % (b.file, b.line), "append(true) is never used in write_file", [WF, "append-any-path"])
+    open_rule(ctx, R1)
 
     R2 = ctx.rule("R2", "write_all(data) once, whole, then flush; both errors propagated; Ok(()) only after both succeeded")
     wa = b.calls_to("tokio::io::util::async_write_ext::AsyncWriteExt::write_all", "std::io::Write::write_all")
@@ -133,12 +109,17 @@ def check(ctx):
             sl = origins(gc, st["rv"]["ops"][0])
             ctx.require(R3, ("acmed::http::ValidHttpResponse", "body") in sl.fields and any(x.is_or_polls("acmed::http::post") for x in sl.calls), where(gc, i),
                         "get_certificate returns response.body of its POST", ["get_certificate", "body"])
+            other = sorted(v for v in sl.via if v.rsplit("::", 1)[-1] not in TRANSPARENT_OK + ("to_string",))
+            ctx.require(R3, not other, where(gc, i), "get_certificate hands the body on unchanged (only representation-preserving conversions; found %s)" % other,
+                        ["get_certificate", "body-transformed"])
     fr = prog.async_body("acmed::http::ValidHttpResponse::from_response")
     for i, st in agg_assigns(fr, "acmed::http::ValidHttpResponse"):
         idx = st["rv"]["fields"].index("body")
         sl = origins(fr, st["rv"]["ops"][idx])
         ctx.require(R3, any("Response::text" in (x.name or "") or "text::{closure" in (x.name or "") for x in sl.calls), where(fr, i),
                     "ValidHttpResponse.body = response.text()", ["from_response", "body-text"])
+        other = sorted(v for v in sl.via if v.replace("::{closure#0}", "").rsplit("::", 1)[-1] not in TRANSPARENT_OK + ("to_string", "text"))
+        ctx.require(R3, not other, where(fr, i), "the response text is stored unchanged (found %s)" % other, ["from_response", "body-transformed"])
     sk = prog.async_body("acmed::storage::set_keypair")
     for c in sk.calls_to(WF):
         sl = arg_origins(c, 2)
@@ -148,6 +129,9 @@ def check(ctx):
         ft = arg_origins(c, 1)
         ctx.require(R3, any("PrivateKey" in str(x.get("variant", x.get("pp", ""))) for x in ft.consts) or "const:acmed::storage::FileType::PrivateKey" in ft.leaves, c.where(),
                     "… into the PrivateKey file", ["set_keypair", "file-type"])
+    # the key file holds the key of the CSR: a generated key is flagged new (constant of the generating path) and a flagged key is stored
+    from .c03 import new_key_flag_rule
+    new_key_flag_rule(ctx, R3)
     pk = prog.must_body("acme_common::crypto::openssl_keys::KeyPair::private_key_to_pem")
     ctx.require(R3, bool(pk.calls_to("openssl::pkey::PKeyRef::private_key_to_pem_pkcs8")), "%s:%s" % (pk.file, pk.line), "private_key_to_pem = PKCS#8 PEM of inner_key", ["private_key_to_pem", "pkcs8"])
     ds = prog.async_body("acmed::account::storage::do_save")
@@ -169,14 +153,48 @@ def check(ctx):
     sites = prog.all_calls_to(OO + "::open", STD_OO + "::open", "tokio::fs::file::File::create", "std::fs::File::create", "std::fs::write", "tokio::fs::write::write",
                               "std::fs::File::create_new", "std::fs::copy", "std::fs::rename", "tokio::fs::rename::rename", crates=("acmed", "acme_common"), include_derive=True)
     ctx.floor(R4, "file-creation sites in acmed/acme_common", len(sites), 3)
+    allowed_fns = {k.split("::{closure")[0] for k in allowed}
     for c in sites:
-        ctx.require(R4, c.body.key in allowed, c.where(), "%s in %s (%s)" % (c.name.rsplit("::", 2)[-2] + "::" + c.name.rsplit("::", 1)[-1], c.body.key, allowed.get(c.body.key, "NOT an allowed writer")),
+        owners = effective_owner(prog, c.body.key)   # a new helper counts as part of the original functions that reach it
+        ctx.require(R4, bool(owners) and owners <= allowed_fns, c.where(), "%s in %s (%s)" % (c.name.rsplit("::", 2)[-2] + "::" + c.name.rsplit("::", 1)[-1], c.body.key, allowed.get(c.body.key, "NOT an allowed writer")),
                     [c.body.key.split("::{closure")[0], "foreign-writer"])
-    callers = sorted(prog.callers_of(WF))
-    ctx.require(R4, set(callers) <= {"acmed::storage::set_account_data::{closure#0}", "acmed::storage::set_keypair::{closure#0}", "acmed::storage::write_certificate::{closure#0}"},
+    callers = sorted(effective_callers(prog, WF))
+    ctx.require(R4, set(callers) <= {"acmed::storage::set_account_data", "acmed::storage::set_keypair", "acmed::storage::write_certificate"},
                 "acmed/src/storage.rs", "write_file is called only by set_account_data, set_keypair, write_certificate (%s)" % callers, [WF, "callers"])
 
 
 def is_post_hook(b, c):
     a = arg_origins(c, 3)
     return any(str(x.get("variant", x.get("pp", ""))).endswith(("FilePostCreate", "FilePostEdit")) for x in a.consts)
+
+
+def open_rule(ctx, R1):
+    """shared with C03 (a rewritten certificate file must hold the new chain only, or it no longer parses)"""
+    prog = ctx.prog
+    b = prog.async_body(WF)
+    from .storage_common import write_file_traces, index_of
+    traces = write_file_traces(prog)
+    ctx.floor(R1, "write_file success-path traces (file exists x file type)", len(traces), 6)
+    for (exists, ft), tr in sorted(traces.items()):
+        ev = tr["events"]
+        who = "%s file, %s" % (ft, "already exists" if exists else "new")
+        i_open = index_of(ev, lambda e: e[0] in ("oo.open", "create"))
+        if tr["kind"] != "return" or i_open < 0:
+            ctx.fail(R1, "%s:%s" % (b.file, b.line), "write_file's success path could not be evaluated or never opens the file (%s): %s" % (who, tr["kind"]), [WF, "trace", ft, str(exists)])
+            continue
+        if ev[i_open][0] == "create":
+            ctx.ok(R1, "%s: File::create (truncates)" % who)
+            continue
+        news = [i for i, e in enumerate(ev[:i_open]) if e[0] == "oo.new"]
+        flags = {e[0][3:]: e[1] for e in ev[(news[-1] if news else 0):i_open] if e[0].startswith("oo.")}
+        ctx.require(R1, flags.get("write") is True, "%s:%s" % (b.file, b.line), "%s: opened with write(true) (%s)" % (who, flags), [WF, "open-without-write", ft, str(exists)])
+        ctx.require(R1, flags.get("truncate") is True or flags.get("create_new") is True, "%s:%s" % (b.file, b.line),
+                    "%s: opened with truncate(true) or create_new(true) — older, longer content cannot survive (%s)" % (who, flags), [WF, "open-without-truncate", ft, str(exists)])
+        ctx.require(R1, flags.get("append") is not True, "%s:%s" % (b.file, b.line), "%s: never opened in append mode" % who, [WF, "append", ft, str(exists)])
+        ctx.require(R1, "PATH" in str(ev[i_open][1]), "%s:%s" % (b.file, b.line), "%s: the opened path is the storage path of get_file_full_path (%s)" % (who, ev[i_open][1]), [WF, "path", ft, str(exists)])
+        i_w = index_of(ev, lambda e: e[0] == "write_all", i_open)
+        ctx.require(R1, i_w > i_open and "DATA" in str(ev[i_w][1]), "%s:%s" % (b.file, b.line), "%s: the data parameter is written after the open" % who, [WF, "write-after-open", ft, str(exists)])
+    # no append(true) anywhere in the function (any path)
+    ap = true_arg_calls(b, OO + "::append") + true_arg_calls(b, STD_OO + "::append")
+    ctx.require(R1, not ap, ap[0].where() if ap else "%s:%s" % (b.file, b.line), "append(true) is never used in write_file", [WF, "append-any-path"])
+
